@@ -232,6 +232,8 @@ func (s *FileSequence) Split() FileSequences {
 		list[i] = seq
 
 		buf.Reset()
+		buf.WriteString(s.dir)
+		buf.WriteString(s.basename)
 	}
 	return list
 }
